@@ -17,7 +17,7 @@ FAILED=$(grep -E "^test result" /tmp/vs_$ID.tests.log | awk '{f+=$6} END {print 
 PASSED=$(grep -E "^test result" /tmp/vs_$ID.tests.log | awk '{s+=$4} END {print s+0}')
 # generator/tests/generator.rs::{grammar,syntax} both shell out to `cargo fmt --all` and race with each other
 # (a flake of the repository's own suite): when they are the only failures, re-run them serially
-ONLY_GEN=$(grep -E "^test .* FAILED" /tmp/vs_$ID.tests.log | grep -v -E "^test (syntax|grammar) " | wc -l)
+ONLY_GEN=$(grep -E "^test .* FAILED" /tmp/vs_$ID.tests.log | grep -v -E "^test (syntax|grammar) |^test result" | wc -l)
 if [ $FAILED -gt 0 ] && [ $ONLY_GEN -eq 0 ]; then
   if cargo test -p pest_typed_generator --test generator --offline -- --test-threads 1 >> /tmp/vs_$ID.tests.log 2>&1; then
     PASSED=$((PASSED+FAILED)); FAILED=0; T=0
